@@ -348,3 +348,38 @@ def classify_shapes(shapes: list[list[str]]) -> list[dict]:
     finally:
         C.get_context, C.zmq, C.time = old
     return out
+
+
+def multi_sender(cases: list) -> list[dict]:
+    """Frames from several senders (each with its own address and its own idx counter) into ONE real Listener."""
+    net = Net()
+    old = (C.get_context, C.zmq, C.time)
+    C.get_context = lambda: types.SimpleNamespace(socket=lambda kind: FakeSocket(net))
+    C.zmq = types.SimpleNamespace(Poller=FakePoller, PUSH=1, PULL=2, POLLIN=1, LINGER=17)
+    C.time = Clock
+    out = []
+    try:
+        for k, seq in enumerate(cases):
+            addr = f"tcp://multi{k}:1"
+            lst = C.Listener(addr)
+            delivered, acks = [], []
+            for sender, idx in seq:
+                saddr = f"tcp://sender{sender}:1"
+                net.flight[saddr] = []
+                msg = DatasetPurge(DatasetId(f"{sender}", str(idx)))
+                net.inbox[addr].append((ser_message(Syn(idx, saddr)), ser_message(msg)))
+                FakePoller.budget = 1
+                try:
+                    for m in lst.recv_messages(0):
+                        delivered.append([m.ds.task, int(m.ds.output)])
+                except Exception as e:
+                    delivered.append(["error", repr(e)[:40]])
+                for s2 in ("A", "B", "D"):
+                    for fr in net.flight.get(f"tcp://sender{s2}:1", []):
+                        a = des_message(fr[0])
+                        acks.append([s2, a.idx] if isinstance(a, Ack) else [s2, "not-an-ack"])
+                    net.flight[f"tcp://sender{s2}:1"] = []
+            out.append({"delivered": delivered, "acks": acks})
+    finally:
+        C.get_context, C.zmq, C.time = old
+    return out
